@@ -12,12 +12,16 @@ import sys
 
 sys.path.insert(0, os.path.dirname(os.path.dirname(os.path.abspath(__file__))))
 from vlib import common as C
+from vlib import gen_descr as GD
 from vlib import gen_value as GV
 from vlib import wirerun as W
 from checks import backend_common as B
 
 NON_DECODE_EXC = ("IndexError", "ValueError", "KeyError", "TypeError", "OverflowError", "AttributeError",
                   "ZeroDivisionError", "AssertionError", "RecursionError", "MemoryError", "error")
+
+
+UNMODELLED = ("badLayout", "badValue", "nonTermination")
 
 
 def negative_length(res, chain=None):
@@ -35,6 +39,74 @@ def negative_length(res, chain=None):
         return True
     widths = [f["width"] for dd in chain for f in dd.get("fields", []) if f["kind"] in ("size_field", "count_field")]
     return any(w in (8, 16, 32, 64) and neg <= (1 << (w - 1)) for w in widths)
+
+
+def model_pass(run, a):
+    """Second corpus: packets made of bit-fields only, in groups of every width up to 64 bits and with fields of 24 / 40 /
+    48 / 56 bits — shapes the first corpus leaves out because the Java back end deviates there (KF-C19-int-chunk,
+    KF-C19-get24).  The emitted classes are compared with their MODEL (Pdlv.Java), which has those deviations."""
+    import random
+    rng = random.Random(a.seed * 7919 + 37)
+    texts = GD.bitfield_packets(rng, 14 if a.tier == "quick" else 80)
+    be = B.Backend(run, "java", a.tier, a.seed + 11, 0, tag="javam", extra_texts=texts)
+    be.generate(stratify=False)
+    if not be.descs or not be.build():
+        be.close()
+        return
+    for i, d in enumerate(be.descs):
+        types = d["types"]
+        for T in be.types(i, roots_only=True):
+            vals = [GV.gen_value(types, T, be.rng)[0] for _ in range(4 if a.tier == "quick" else 10)]
+            mes = be.model(i, T, [{"k": "javaenc", "v": v} for v in vals])
+            if not isinstance(mes, list):
+                continue
+            strings = [b""]
+            for v, me in zip(vals, mes):
+                r = be.ask(i, T, "enc", v)
+                run.case((d["text"], T, W.canon(v), "model-pass"))
+                if me.get("r") == "panic" and me.get("h") in UNMODELLED:
+                    run.hist("java_model", "enc-unmodelled")
+                    continue
+                if r.get("r") == "badvalue":
+                    continue
+                same = r.get("r") == "ok" and me.get("r") == "ok" and me.get("hex") == r.get("hex")
+                run.hist("java_model_pass", "enc-agree" if same else "enc-disagree")
+                if not same:
+                    run.violation("corr", "the model of the emitted Java serializer (Pdlv.Java) and toBytes() disagree on a %s: model %s, emitted %s"
+                                  % (T, str(me.get("hex") or me.get("r"))[:40], str(r.get("hex") or r.get("r"))[:40]),
+                                  {"pdl": d["text"], "type": T, "value": v, "java": r, "model": me, "corr": "corr:C19/java-chunk-model"},
+                                  found_input=False)
+                if r.get("r") == "ok":
+                    sd = bytes.fromhex(r["hex"])
+                    strings.append(sd)
+                    strings += [s for _, s in GV.mutants(be.rng, sd, 2)][:12]
+            rf = be.model(i, T, [{"k": "ref", "v": v} for v in vals])
+            if isinstance(rf, list):
+                strings += [bytes.fromhex(x["hex"]) for x in rf if x.get("r") == "ok"]
+                for me, x in zip(mes, rf):
+                    if me.get("r") == "ok" and x.get("r") == "ok":
+                        # how often the modelled (= emitted) bytes are NOT the reference's: the recorded deviations at work
+                        run.hist("java_model_pass", "model-is-reference" if me.get("hex") == x.get("hex") else "model-deviates-from-reference")
+            uniq = list(dict.fromkeys(strings))
+            mds = be.model(i, T, [{"k": "javadec", "hex": s.hex()} for s in uniq])
+            if not isinstance(mds, list):
+                continue
+            for s, md in zip(uniq, mds):
+                r = be.ask(i, T, "dec", s.hex())
+                run.case((d["text"], T, s, "model-pass"))
+                if md.get("r") == "panic" and md.get("h") in UNMODELLED:
+                    run.hist("java_model", "dec-unmodelled")
+                    continue
+                if r.get("r") not in ("ok", "err"):
+                    continue
+                same = md.get("r") == r.get("r") and (r.get("r") != "ok" or W.canon(md.get("value")) == W.canon(r.get("value")))
+                run.hist("java_model_pass", ("dec-agree:%s" % r.get("r")) if same else "dec-disagree")
+                if not same:
+                    run.violation("corr", "the model of the emitted Java parser (Pdlv.Java) and fromBytes() disagree on %s %s: model %s, emitted %s"
+                                  % (T, s.hex()[:40], md.get("r"), r.get("r")),
+                                  {"pdl": d["text"], "type": T, "input_hex": s.hex(), "java": r, "model": md,
+                                   "corr": "corr:C19/java-chunk-model"}, found_input=False)
+    be.close()
 
 
 def corpus_texts():
@@ -83,13 +155,41 @@ def main(argv):
                 run.hist("model_status", str(refs))
                 continue
             seeds = []
-            for v, rf in zip(vals, refs):
+            # the Lean model of what the Java back end emits for bit-field groups (Pdlv.Java): packets and structs without
+            # parent made of bit-fields only; theorem hypotheses (java_packs_groups_up_to_32_bits / java_reads_groups_of_8_16_32_bits)
+            mje = be.model(i, T, [{"k": "javaenc", "v": v} for v in vals]) if not decl.get("parent_id") else None
+            mje = mje if isinstance(mje, list) else None
+            jh = {}
+            if mje is not None:
+                hy = be.model(i, T, [{"k": "len", "v": {}}])
+                jh = hy[0] if isinstance(hy, list) else {}
+                if any(x.get("r") != "panic" or x.get("h") not in UNMODELLED for x in mje):
+                    run.hist("theorem_hypotheses", "Java.wfBody&refWfBody:%s" % bool(jh.get("javawf") and jh.get("refwf")))
+            for n_v, (v, rf) in enumerate(zip(vals, refs)):
                 if rf.get("r") != "ok":
                     continue
                 run.case((d["text"], T, W.canon(v)))
                 r = be.ask(i, T, "enc", v)
                 rep = {"pdl": d["text"], "type": T, "value": v, "java": r, "reference": rf}
                 run.hist("enc_outcomes", str(r.get("r")))
+                if mje is not None:
+                    me = mje[n_v]
+                    if me.get("r") == "panic" and me.get("h") in UNMODELLED:
+                        run.hist("java_model", "enc-unmodelled")
+                    elif r.get("r") in ("ok",):
+                        same = me.get("r") == "ok" and me.get("hex") == r.get("hex")
+                        run.hist("java_model", "enc-agree" if same else "enc-disagree")
+                        if not same:
+                            run.violation("corr", "the model of the emitted Java serializer (Pdlv.Java) and toBytes() disagree on a %s: model %s, emitted %s"
+                                          % (T, (me.get("hex") or me.get("r"))[:40], r.get("hex", "")[:40]),
+                                          {"pdl": d["text"], "type": T, "value": v, "java": r, "model": me, "corr": "corr:C19/java-chunk-model"},
+                                          found_input=False)
+                        if jh.get("javawf") and jh.get("refwf"):
+                            run.count("theorem_instances")
+                            if me.get("hex") != rf.get("hex"):
+                                run.violation("corr", "theorem java_packs_groups_up_to_32_bits contradicted by evaluation on %s (model bug)" % T,
+                                              {"pdl": d["text"], "type": T, "value": v, "model": me, "reference": rf,
+                                               "corr": "thm:java_packs_groups_up_to_32_bits"}, found_input=False)
                 if r.get("r") == "badvalue":
                     continue
                 if r.get("r") != "ok":
@@ -152,8 +252,29 @@ def main(argv):
             mo = be.model(i, T, [{"k": "decfull", "hex": s.hex()} for _, s in uniq])
             if not isinstance(mo, list):
                 continue
-            for (kind, s), m in zip(uniq, mo):
+            mjd = be.model(i, T, [{"k": "javadec", "hex": s.hex()} for _, s in uniq]) if not decl.get("parent_id") else None
+            mjd = mjd if isinstance(mjd, list) else None
+            for n_s, ((kind, s), m) in enumerate(zip(uniq, mo)):
                 r = be.ask(i, T, "dec", s.hex())
+                if mjd is not None and r.get("r") in ("ok", "err") and r.get("type", T) == T:
+                    md = mjd[n_s]
+                    if md.get("r") == "panic" and md.get("h") in UNMODELLED:
+                        run.hist("java_model", "dec-unmodelled")
+                    else:
+                        same = md.get("r") == r.get("r") and (r.get("r") != "ok" or W.canon(md.get("value")) == W.canon(r.get("value")))
+                        run.hist("java_model", "dec-agree:%s" % r.get("r") if same else "dec-disagree")
+                        if not same:
+                            run.violation("corr", "the model of the emitted Java parser (Pdlv.Java) and fromBytes() disagree on %s %s: model %s, emitted %s"
+                                          % (T, s.hex()[:40], md.get("r"), r.get("r")),
+                                          {"pdl": d["text"], "type": T, "input_hex": s.hex(), "java": r, "model": md,
+                                           "corr": "corr:C19/java-chunk-model"}, found_input=False)
+                        if jh.get("javadecwf"):
+                            run.count("theorem_instances")
+                            okk = (md.get("r") == "ok") == (m.get("r") == "ok") and (md.get("r") != "ok" or W.canon(md.get("value")) == W.canon(m.get("value")))
+                            if not okk:
+                                run.violation("corr", "theorem java_reads_groups_of_8_16_32_bits contradicted by evaluation on %s %s (model bug)" % (T, s.hex()[:40]),
+                                              {"pdl": d["text"], "type": T, "input_hex": s.hex(), "model": md, "reference": m,
+                                               "corr": "thm:java_reads_groups_of_8_16_32_bits"}, found_input=False)
                 run.case((d["text"], T, s))
                 run.hist("dec_outcomes", str(r.get("r")) + (":" + str(r.get("e")) if r.get("r") in ("err", "exception") else ""))
                 rep = {"pdl": d["text"], "type": T, "input_hex": s.hex(), "kind": kind, "java": r, "reference": m}
@@ -200,6 +321,7 @@ def main(argv):
                         run.count("specialized_ok")
             run.sample({"type": T, "strings": len(uniq)}, limit=4)
     be.close()
+    model_pass(run, a)
     return run.finish(proof, extra_cov={
         "rule": "java-class descriptions (no element-size/custom fields), both endiannesses; in-range values through "
                 "serialize / size / parse_all; reference encodings, mutants, prefixes, random strings through parse_all of "
